@@ -541,3 +541,16 @@ class ViewOf(Shape):
         n = mk.const(name + '.len', IntS)
         mk.assume(z3.And(off >= 0, n >= 0))
         return SBytes(arr, off, n)
+
+
+class ParserTable(Shape):
+    """a dispatch table {integer key: operand parser}: membership is an uninterpreted predicate of the key, the
+    parsers are abstract (see AbstractParser); the real table is decided entry by entry elsewhere (K2)"""
+
+    def __init__(self, name):
+        self.name = name
+
+    def make(self, mk, name, idx=None):
+        from .vals import SDict, AbstractParser, to_int
+        has = z3.Function(self.name + '.has', IntS, BoolS)
+        return SDict(lambda k: has(to_int(k)), lambda k: AbstractParser(self.name, to_int(k)), self.name)
